@@ -201,6 +201,56 @@ theorem noop_of_wrong_arg_count (env : Env) (pruning : Int) (sv : Services) (hos
   · exact noop_idle sv
   · rw [warnStep_eq_idle]; exact noop_idle sv
 
+/-- a request of the right shape whose arguments the command refuses before touching anything -/
+theorem noop_of_refused_arguments (env : Env) (pruning : Int) (sv : Services) (host : Val) (d : Bytes) (now : Int) (m : Val)
+    (s : List Nat) (args : List Val) (c : CmdName × Nat) (h : load d = .ok (.tuple [m, .str s, .tuple args]))
+    (hc : lookupCmd env (.str s) = some c) (hi : intentCall env host c.1 args = .none) :
+    (workStep env pruning sv host d now).Noop sv := by
+  unfold workStep
+  split
+  · exact noop_idle sv
+  simp only [h, dispatch, unpack3', iterate', three, dispatch3, hc, execute]
+  split
+  · split
+    · exact callCmd_noop env pruning sv host now c.1 args hi
+    · exact noop_idle sv
+  · rw [warnStep_eq_idle]; exact noop_idle sv
+
+/-- wrong argument types, query: the name is neither text nor a byte string (nothing else has `.upper()`) -/
+theorem noop_of_query_bad_name (env : Env) (pruning : Int) (sv : Services) (host : Val) (d : Bytes) (now : Int) (m name : Val)
+    (s : List Nat) (n : Nat) (h : load d = .ok (.tuple [m, .str s, .tuple [name]]))
+    (hc : lookupCmd env (.str s) = some (.query, n)) (h1 : ∀ t, name ≠ .str t) (h2 : ∀ b, name ≠ .bytes b) :
+    (workStep env pruning sv host d now).Noop sv := by
+  apply noop_of_refused_arguments env pruning sv host d now m s [name] (.query, n) h hc
+  simp only [intentCall]
+  cases name <;> first | rfl | exact absurd rfl (h1 _) | exact absurd rfl (h2 _)
+
+/-- wrong argument types, register: `names` is a tuple with an item that is not text -/
+theorem noop_of_register_bad_names (env : Env) (pruning : Int) (sv : Services) (host : Val) (d : Bytes) (now : Int)
+    (m port : Val) (s : List Nat) (n : Nat) (names : List Val)
+    (h : load d = .ok (.tuple [m, .str s, .tuple [.tuple names, port]]))
+    (hc : lookupCmd env (.str s) = some (.register, n)) (hbad : allStr names = none) :
+    (workStep env pruning sv host d now).Noop sv := by
+  apply noop_of_refused_arguments env pruning sv host d now m s [.tuple names, port] (.register, n) h hc
+  simp [intentCall, iterate', hbad]
+
+/-- wrong argument types, register: `names` cannot be iterated at all -/
+theorem noop_of_register_names_not_iterable (env : Env) (pruning : Int) (sv : Services) (host : Val) (d : Bytes) (now : Int)
+    (m names port : Val) (s : List Nat) (n : Nat)
+    (h : load d = .ok (.tuple [m, .str s, .tuple [names, port]]))
+    (hc : lookupCmd env (.str s) = some (.register, n)) (hbad : notIterable names = true) :
+    (workStep env pruning sv host d now).Noop sv := by
+  apply noop_of_refused_arguments env pruning sv host d now m s [names, port] (.register, n) h hc
+  simp only [intentCall]
+  cases names <;> simp [notIterable] at hbad <;> rfl
+
+/-- `", ".join(names)` refuses exactly the lists with an item that is not text -/
+theorem allStr_none_iff (xs : List Val) : allStr xs = none ↔ ∃ x ∈ xs, ∀ t, x ≠ .str t := by
+  induction xs with
+  | nil => simp [allStr]
+  | cons x xs ih =>
+    cases x <;> simp [allStr] <;> (try (cases hr : allStr xs <;> simp [hr] at ih ⊢ <;> exact ih))
+
 /-! ### case-insensitivity -/
 
 theorem asciiUpper_asciiLower (c : Nat) : asciiUpper (asciiLower c) = asciiUpper c := by
